@@ -428,29 +428,34 @@ def tableOr (tbl : List (String × String)) (t : Ty) (fmtName : String → Strin
     | .alias q => .ref (.raw (fmtName q.name)) ""
     | _ => .lit (fmtName t.irName)
 
-/-- `swift_helpers.fmt_type` -/
+/-- `swift_helpers.fmt_type`. `unwrap_nullable` removes one `Nullable`; a second one directly below is formatted by
+its class name (never produced by the frontend). -/
 def swType : Ty → TExpr
-  | .nullable t => swTypeU t ++ .lit "?"
-  | t => swTypeU t
-where
-  /-- the part after `unwrap_nullable` -/
-  swTypeU : Ty → TExpr
-    | .user q => .ref (.swType q) ""
-    | .list e => .lit (lookupD Tables.swiftTypeTable "List" "List") ++ .lit "<" ++ swType e ++ .lit ">"
-    | .map k v => .lit (lookupD Tables.swiftTypeTable "Map" "Map") ++ .lit "<" ++ swType k ++ .lit ", " ++ swType v ++ .lit ">"
-    | t => tableOr Tables.swiftTypeTable t swClass
+  | .nullable t =>
+    (match t with
+     | .nullable _ => tableOr Tables.swiftTypeTable t swClass
+     | t => swType t) ++ .lit "?"
+  | .user q => .ref (.swType q) ""
+  | .list e => .lit (lookupD Tables.swiftTypeTable "List" "List") ++ .lit "<" ++ swType e ++ .lit ">"
+  | .map k v => .lit (lookupD Tables.swiftTypeTable "Map" "Map") ++ .lit "<" ++ swType k ++ .lit ", " ++ swType v ++ .lit ">"
+  | t => tableOr Tables.swiftTypeTable t swClass
+
+/-- `swift_helpers.fmt_objc_type` after `unwrap_nullable`: list elements are formatted with `allow_nullable=False`
+(their `Nullable` is dropped), map values with the default `allow_nullable=True` (a `?` is appended) -/
+def swObjcTypeU : Ty → TExpr
+  | .user q => .ref (.swWrap q) ""
+  | .list (.nullable e) => .lit (lookupD Tables.swiftObjcTypeTable "List" "List") ++ .lit "<" ++ swObjcTypeU e ++ .lit ">"
+  | .list e => .lit (lookupD Tables.swiftObjcTypeTable "List" "List") ++ .lit "<" ++ swObjcTypeU e ++ .lit ">"
+  | .map _ (.nullable v) => .lit (lookupD Tables.swiftObjcTypeTable "Map" "Map") ++ .lit "<String, " ++
+      (swObjcTypeU v ++ .lit "?") ++ .lit ">"
+  | .map _ v => .lit (lookupD Tables.swiftObjcTypeTable "Map" "Map") ++ .lit "<String, " ++ swObjcTypeU v ++ .lit ">"
+  | t => tableOr Tables.swiftObjcTypeTable t swClass
 
 /-- `swift_helpers.fmt_objc_type(data_type, allow_nullable)` -/
 def swObjcType (t : Ty) (allowNullable : Bool := true) : TExpr :=
   match t with
-  | .nullable t => if allowNullable then go t ++ .lit "?" else go t
-  | t => go t
-where
-  go : Ty → TExpr
-    | .user q => .ref (.swWrap q) ""
-    | .list e => .lit (lookupD Tables.swiftObjcTypeTable "List" "List") ++ .lit "<" ++ swObjcType e false ++ .lit ">"
-    | .map _ v => .lit (lookupD Tables.swiftObjcTypeTable "Map" "Map") ++ .lit "<String, " ++ swObjcType v true ++ .lit ">"
-    | t => tableOr Tables.swiftObjcTypeTable t swClass
+  | .nullable t => if allowNullable then swObjcTypeU t ++ .lit "?" else swObjcTypeU t
+  | t => swObjcTypeU t
 
 /-- `swift.fmt_serial_type` -/
 def swSerialType : Ty → TExpr
@@ -463,15 +468,16 @@ def swSerialType : Ty → TExpr
 
 /-- `swift.fmt_serial_obj` -/
 def swSerialObj : Ty → TExpr
-  | .nullable t => .lit "NullableSerializer(" ++ go t ++ .lit ")"
-  | t => go t
-where
-  go : Ty → TExpr
-    | .user q => .ref (.swSer q) "()"
-    | .list e => .lit (lookupD Tables.swiftSerialTypeTable "List" "List") ++ .lit "(" ++ swSerialObj e ++ .lit ")"
-    | .map _ v => .lit (lookupD Tables.swiftSerialTypeTable "Map" "Map") ++ .lit "(" ++ swSerialObj v ++ .lit ")"
-    | .ts fmt => .lit (lookupD Tables.swiftSerialTypeTable "Timestamp" "Timestamp") ++ .lit ("(\"" ++ fmt ++ "\")")
-    | t => .lit "Serialization._" ++ tableOr Tables.swiftSerialTypeTable t swClass
+  | .nullable t =>
+    .lit "NullableSerializer(" ++
+    (match t with
+     | .nullable _ => .lit "Serialization._" ++ tableOr Tables.swiftSerialTypeTable t swClass
+     | t => swSerialObj t) ++ .lit ")"
+  | .user q => .ref (.swSer q) "()"
+  | .list e => .lit (lookupD Tables.swiftSerialTypeTable "List" "List") ++ .lit "(" ++ swSerialObj e ++ .lit ")"
+  | .map _ v => .lit (lookupD Tables.swiftSerialTypeTable "Map" "Map") ++ .lit "(" ++ swSerialObj v ++ .lit ")"
+  | .ts fmt => .lit (lookupD Tables.swiftSerialTypeTable "Timestamp" "Timestamp") ++ .lit ("(\"" ++ fmt ++ "\")")
+  | t => .lit "Serialization._" ++ tableOr Tables.swiftSerialTypeTable t swClass
 
 /-- `obj_c_helpers.fmt_type(data_type, tag, has_default, no_ptr, is_prop)` -/
 def ocType (t : Ty) (tag : Bool := false) (hasDefault : Bool := false) (noPtr : Bool := false)
@@ -666,7 +672,7 @@ def swObjcUnionDecls (api : Api) (ns : String) (u : UnionT) : List Decl :=
     let tagType := swObjcType f.ty
     { unit := "", kind := "class", scope := [], name := TC,
       refs := [TRef.swWrap q, TRef.swType q] ++ tagType.refs : Decl } ::
-    (if tagType.render == "" then [] else
+    (if tagType.render = "" then [] else
       [{ unit := "", kind := "var", scope := [TC], name := swVar f.name, refs := tagType.refs }])
 
 def swiftTypesObjcDecls (api : Api) : List Decl :=
